@@ -163,7 +163,7 @@ func c12sys(sc *sim.Scenario, env *sim.Env) *sim.Violation {
 		return m
 	}
 	// pre-pass: measure the path (costs and instruction boundaries)
-	smP, err := NewSysMachine(1, mkHole())
+	smP, err := NewSysMachine(env, 1, mkHole())
 	if err != nil {
 		return &sim.Violation{Oracle: "HARNESS_PANIC", Msg: err.Error()}
 	}
@@ -220,7 +220,7 @@ func c12sys(sc *sim.Scenario, env *sim.Env) *sim.Violation {
 	}
 
 	// reference twin: every instruction consumes >= 1 cycle, so at most `budget` instructions
-	smR, err := NewSysMachine(1, mkHole())
+	smR, err := NewSysMachine(env, 1, mkHole())
 	if err != nil {
 		return &sim.Violation{Oracle: "HARNESS_PANIC", Msg: err.Error()}
 	}
@@ -231,7 +231,7 @@ func c12sys(sc *sim.Scenario, env *sim.Env) *sim.Violation {
 	refStalled := len(recs) > int(budget)
 
 	// world A: the real RunUntil, with observers
-	smA, err := NewSysMachine(0, mkHole())
+	smA, err := NewSysMachine(env, 0, mkHole())
 	if err != nil {
 		return &sim.Violation{Oracle: "HARNESS_PANIC", Msg: err.Error()}
 	}
@@ -440,9 +440,9 @@ func c12bare(sc *sim.Scenario, env *sim.Env) *sim.Violation {
 	mem.Poke(0x00FFFD, byte(pc>>8))
 	var mc *Machine
 	if sc.C("kind") == 1 {
-		mc = NewAltMachine(0, mem, 0, 0)
+		mc = NewAltMachine(env, 0, mem, 0, 0)
 	} else {
-		mc = NewBusMachine(0, mem)
+		mc = NewBusMachine(env, 0, mem)
 	}
 	cpu := mc.CPU
 	r0 := startRegs(sc)
@@ -587,9 +587,9 @@ func c12sweep(sc *sim.Scenario, env *sim.Env) *sim.Violation {
 			}
 			var mc *Machine
 			if kind == 0 {
-				mc = NewBusMachine(0, mem)
+				mc = NewBusMachine(env, 0, mem)
 			} else {
-				mc = NewAltMachine(0, mem, 0, 0)
+				mc = NewAltMachine(env, 0, mem, 0, 0)
 			}
 			cpu := mc.CPU
 			r := Regs{PC: 0x80FD, RK: 0, SP: 0x01F0, M: m, X: x, E: e, RDBR: 0x01}
